@@ -442,7 +442,7 @@ func opSerf(lens string) (string, string) {
 	}
 	// the joins are known to this node when Join returns (push/pull); give the event channel a moment
 	joins := 0
-	deadline := time.After(250 * time.Millisecond)
+	deadline := time.After(loadFactor() * 250 * time.Millisecond)
 collect:
 	for {
 		select {
@@ -546,7 +546,7 @@ func opDisp(evs string) (string, string) {
 			}
 			r.done <- err
 			return "ok late"
-		case <-time.After(50 * time.Millisecond):
+		case <-time.After(loadFactor() * 50 * time.Millisecond):
 			return "ok lost" // pending, not cancelled, and the requester heard nothing
 		}
 	}
